@@ -6,10 +6,6 @@ STOPPISH = ("STOP", "PAUSE")
 
 def check(tr):
     out = []
-    if tr.world == "sim":
-        from dst.oracles import c02_sim
-
-        return c02_sim.check(tr)
     delivered = {}  # (trial, run) -> list of (idx, seq)
     decision_seq = {}  # (trial, run) -> seq of first STOP/PAUSE decision
     resumes = {}  # trial -> list of seq of resume returns
